@@ -264,7 +264,8 @@ class FormulaManager(object):
             raise PysmtValueError("The exponent of POW must be a constant.", exponent)
 
         if base.is_constant():
-            val = cast(Union[int, fractions.Fraction], base.constant_value()) ** cast(Union[int, fractions.Fraction], exponent.constant_value())
+            # Fraction ** int is exact; int ** negative int would be a float
+            val = Fraction(cast(Union[int, fractions.Fraction], base.constant_value())) ** cast(Union[int, fractions.Fraction], exponent.constant_value())
             return self.Real(val)
         return self.create_node(node_type=op.POW, args=(base, exponent))
 
